@@ -6,3 +6,4 @@ import Iodata.Model.Rd.Pdb
 import Iodata.Model.Rd.Cube
 import Iodata.Model.Rd.Gro
 import Iodata.Model.Rd.Vasp
+import Iodata.Model.Rd.Crd
